@@ -54,6 +54,7 @@ AUTOMUT_TRIAGE = [
 
 def run(chk):
     repo = chk.repo
+    cm.schema(chk, repo, "C07")
     d1_sel_convert(chk, repo)
     d2_field_sel(chk, repo)
     d3_mesh_sel(chk, repo)
